@@ -14,26 +14,26 @@ namespace Indi.Buf
 variable {M : Type}
 
 /-- with the threshold enabled, no more than the threshold is retained after `process`, whatever the input -/
-theorem C11_bounded (tryParse : Str → Option M) (tags : List Str) (t : Nat) (data : Str) :
-    (process tryParse tags (some t) data).2.length ≤ t := by
-  exact processLoop_bounded tryParse tags t _
+theorem C11_bounded (parse : Str → ParseRes M) (tags : List Str) (t : Nat) (data : Str) :
+    (process parse tags (some t) data).2.length ≤ t := by
+  exact processLoop_bounded parse tags t _
 
 /-- only genuine messages are handed to the consumer: every delivered value was returned by the parser
 for some prefix-candidate of the buffer -/
-theorem C11_genuine (tryParse : Str → Option M) (tags : List Str) (threshold : Option Nat) (data : Str) (m : M)
-    (h : m ∈ (process tryParse tags threshold data).1) : ∃ x, tryParse x = some m := by
-  exact processLoop_genuine tryParse tags threshold _ m h
+theorem C11_genuine (parse : Str → ParseRes M) (tags : List Str) (threshold : Option Nat) (data : Str) (m : M)
+    (h : m ∈ (process parse tags threshold data).1) : ∃ x, parse x = .msg m := by
+  exact processLoop_genuine parse tags threshold _ m h
 
 /-- what is retained is always a suffix of what was there: nothing is invented -/
-theorem C11_retained_suffix (tryParse : Str → Option M) (tags : List Str) (threshold : Option Nat) (data : Str) :
-    (process tryParse tags threshold data).2 <:+ data := by
-  exact (processLoop_suffix tryParse tags threshold _).trans (cleanup_suffix tags data)
+theorem C11_retained_suffix (parse : Str → ParseRes M) (tags : List Str) (threshold : Option Nat) (data : Str) :
+    (process parse tags threshold data).2 <:+ data := by
+  exact (processLoop_suffix parse tags threshold _).trans (cleanup_suffix tags data)
 
 /-- junk without a known opener is dropped or kept as a tail, and never delivers anything -/
-theorem C11_junk_delivers_nothing (tryParse : Str → Option M) (tags : List Str) (threshold : Option Nat)
-    (hA1 : ParserNeedsOpener tryParse tags) (junk : Str) (hj : NoOpener tags junk) :
-    (process tryParse tags threshold junk).1 = [] := by
-  exact processLoop_noOpener tryParse tags threshold hA1 _
+theorem C11_junk_delivers_nothing (parse : Str → ParseRes M) (tags : List Str) (threshold : Option Nat)
+    (hA1 : ParserNeedsOpener parse tags) (junk : Str) (hj : NoOpener tags junk) :
+    (process parse tags threshold junk).1 = [] := by
+  exact processLoop_noOpener parse tags threshold hA1 _
     (NoOpener_suffix tags junk _ (cleanup_suffix tags junk) hj)
 
 end Indi.Buf
